@@ -211,6 +211,16 @@ class PCSO(PUSO):
         """
         PCBO.update(self, *args, **kwargs)
 
+    # override
+    def __imul__(self, other):
+        """imul.
+
+        Define the multiplication ``self *= other``, keeping the ancilla
+        counter. See ``qubovert.PCBO.__imul__``.
+
+        """
+        return PCBO.__imul__(self, other)
+
     @property
     def constraints(self):
         """constraints.
